@@ -700,6 +700,12 @@ def _run_states(ctx, res, model, states, scratch, mp):
     if model is None:
         return
     outs = mbatch(model, lines)
+    if not ctx.searching:
+        pick = [i for i, l in enumerate(lines) if len(l) < 2500][:: max(1, len(lines) // 12)][:12]
+        n, ok, lg = core.coq_crosscheck([[lines[i]] for i in pick], [[outs[i]] for i in pick], "persist", shell="Persist")
+        res.extra["persist_tie_extraction_crosschecks"] = n
+        if not ok:
+            _violate_corr(res, "xcheck", "extracted Persist runner disagrees with vm_compute: " + lg[-300:], {"kind": "xcheck"})
     for (idx, what, exp, extra), out, line in zip(plan, outs, lines):
         case, sensors = states[idx]
         res.count("persist-tie:cmp:" + what)
